@@ -3,6 +3,9 @@ import WebrtcVerif.Model.ConnState
 /-! Driver handler for C22.
   ops:  `agg <closed> <ice> <dtls>`                      → `<pc>`
         `seq <prev> (<closed> <ice> <dtls>)*`            → `<final> n <notified…>`
+        `live <variant> <n>`                             → `observed` (judge-only: the implementation prints
+            `observed A <closed> <ice> <dtls> <conn> <k> <notified…> | B …`, the settled state of each side of
+            a real loopback pair; the model does not predict which states a live pair settles in)
   all values are the raw Go ints. -/
 namespace WebrtcVerif.Drv.C22
 open WebrtcVerif WebrtcVerif.ConnState
@@ -17,8 +20,36 @@ def triples : List Nat → Option (List (Bool × Ice × Dtls))
 def showSt (s : St) : String :=
   String.intercalate " " (toString s.state.toNat :: toString s.notified.length :: s.notified.map (toString ·.toNat))
 
+/-- the scenarios of `c22Live` (harness/cmd/wvh/c22.go) -/
+def liveVariants : List String :=
+  ["ok", "badans", "badoff", "badboth", "closeA", "closeB", "closeAB", "earlyA", "midA", "earlyB",
+   "noanswer", "halfanswer", "closenew", "lossB", "faillossB", "peercloseA", "staleice"]
+
+/-- One side of a live observation: `<name> <closed> <ice> <dtls> <conn> <k> <notified…>`.
+    `stalled`: the scenario held one update between computing the aggregate and taking the lock (variant
+    `staleice`); an aggregate mismatch there is the stale-snapshot cause and gets its own key. -/
+def judgeSide (stalled : Bool) : List String → String
+  | _name :: rest =>
+    match Wire.natList rest with
+    | some (c :: i :: d :: conn :: k :: notes) =>
+      if k != notes.length || c > 1 then "bad-judge" else
+      match liveVerdict (c != 0) (Ice.ofRaw i) (Dtls.ofRaw d)
+              (Pc.ofRaw conn) (notes.map Pc.ofRaw) with
+      | none => "ok"
+      | some key =>
+        if stalled && key == "not-w3c-aggregate-live" then "violated not-w3c-aggregate-stalled-update"
+        else "violated " ++ key
+    | _ => "bad-judge"
+  | [] => "bad-judge"
+
+def splitBar (l : List String) : List (List String) :=
+  l.foldr (fun t acc => if t == "|" then [] :: acc else match acc with
+    | h :: r => (t :: h) :: r
+    | [] => [[t]]) [[]]
+
 def run (args : List String) : String :=
   match args with
+  | ["live", v, n] => if liveVariants.contains v && n.toNat?.isSome then "observed" else "bad-op"
   | ["agg", c, i, d] =>
     match Wire.natList [c, i, d] with
     | some [c, i, d] => toString (aggregate (c != 0) (Ice.ofRaw i) (Dtls.ofRaw d)).toNat
@@ -33,6 +64,21 @@ def run (args : List String) : String :=
     uses only the W3C precedence list `w3c` and `noRepeat`. -/
 def judge (args out : List String) : String :=
   match args with
+  | ["live", v, n] =>
+    if !(liveVariants.contains v && n.toNat?.isSome) then "bad-judge" else
+    match out with
+    | "observed" :: rest =>
+      let sides := splitBar rest
+      if sides.length != 2 then "bad-judge" else
+      let vs := sides.map (judgeSide (v == "staleice"))
+      match vs.find? (· != "ok") with
+      | none => "ok"
+      | some v =>
+        -- name the side in the verdict: `violated <key> <side>`
+        match vs.zip sides |>.find? (·.1 != "ok") with
+        | some (_, name :: _) => v ++ " " ++ name
+        | _ => v
+    | _ => "bad-judge"
   | ["agg", c, i, d] =>
     match Wire.natList [c, i, d], Wire.natList out with
     | some [c, i, d], some [o] =>
